@@ -73,6 +73,9 @@ pub enum QueueOp {
     DrainAbove { threshold: MaxCut },
     CoverUpTo { segment: SegmentIndex, coverage: MaxCut, longest: MaxCut },
     DrainAll,
+    /// An entry handed to the callback of the `DrainAbove` / `DrainAll` in progress
+    /// (reported with empty state vectors).
+    Drained { loc: Location },
 }
 
 /// Operation plus the logical state of the queue before it runs.
@@ -103,6 +106,22 @@ pub(crate) fn queue_op(queue: usize, entries: &[Location], partition: usize, op:
                     op,
                     uncovered: entries[..split].to_vec(),
                     covered: entries[split..].to_vec(),
+                });
+            }
+        }
+    });
+}
+
+#[inline]
+pub(crate) fn queue_drained(queue: usize, loc: Location) {
+    QUEUE_TRACE.with(|q| {
+        if let Ok(mut q) = q.try_borrow_mut() {
+            if let Some(cb) = q.as_mut() {
+                cb(QueueEvent {
+                    queue,
+                    op: QueueOp::Drained { loc },
+                    uncovered: Vec::new(),
+                    covered: Vec::new(),
                 });
             }
         }
